@@ -2186,11 +2186,11 @@ def gen_extension_case(rng, it):
                 out.append(nm)
         return out
     bases = [dict(name=nm + '_%d' % it if rng.random() < 0.3 else nm, keyword='ext-%s-%d' % (nm.lower(), it),
-                  kwargs=[('p%d_%s' % (i, nm.lower()[-3:]), float(rng.integers(1, 900))) for i in range(int(rng.integers(1, 4)))])
-             for nm in names(EXT_STEMS, int(rng.integers(2, 5)))]
+                  kwargs=[('p%d_b%d%s' % (i, j, nm.lower()[-3:]), float(rng.integers(1, 900))) for i in range(int(rng.integers(1, 4)))])
+             for j, nm in enumerate(names(EXT_STEMS, int(rng.integers(2, 5))))]     # key names unique per class (b<j>, x<j>):
     mixins = [dict(name=nm, keyword='extmix-%s-%d' % (nm.lower(), it),
-                   kwargs=[('m%d_%s' % (i, nm.lower()[-3:]), float(rng.integers(1, 900))) for i in range(int(rng.integers(1, 3)))])
-              for nm in names(EXT_MIX_STEMS, int(rng.integers(1, 3)))]
+                   kwargs=[('m%d_x%d%s' % (i, j, nm.lower()[-3:]), float(rng.integers(1, 900))) for i in range(int(rng.integers(1, 3)))])
+              for j, nm in enumerate(names(EXT_MIX_STEMS, int(rng.integers(1, 3))))]  # which of two classes sharing a key name receives it is not stated
     seq = []
     mk = [m['keyword'] for m in mixins] + ['tempscalar']
     for rep in range(2):
